@@ -53,6 +53,7 @@ def explore(it, fn, max_paths=MAX_PATHS):
     unsupported = []
     uncaught = []
     inlined = set()
+    lemma_uses = set()
     stubs_used = set()
     notes = []
     covers = set()
@@ -85,13 +86,14 @@ def explore(it, fn, max_paths=MAX_PATHS):
                              time_s=o.time_s, detail=o.detail, path=n_paths, label=o.label,
                              model=_model_inputs(o.model, o.inputs) if o.status == "sat" else None))
         inlined |= ctx.inlined
+        lemma_uses |= getattr(ctx, "lemma_uses", set())
         notes.extend(ctx.notes)
         covers |= ctx.covers
         for kind, q in ctx.call_log:
             if kind == "stub":
                 stubs_used.add(q)
     return dict(obls=obls, paths=n_paths, completed=n_completed, unsupported=unsupported,
-                uncaught=uncaught, inlined=sorted(inlined), stubs=sorted(stubs_used), notes=notes,
+                uncaught=uncaught, inlined=sorted(inlined), lemma_uses=sorted(lemma_uses), stubs=sorted(stubs_used), notes=notes,
                 covers=sorted(covers))
 
 
@@ -273,6 +275,10 @@ def _fold(rep, contract_mod, r, meta, verbose):
             rep.engine_error("vacuity guard: cover point %r of harness %s was not reached" % (c, hname))
     for q in r["inlined"]:
         rep.inlined.add(q)
+    for l in r.get("lemma_uses", []):
+        rep.extra.setdefault("ghost_lemmas_used", [])
+        if l not in rep.extra["ghost_lemmas_used"]:
+            rep.extra["ghost_lemmas_used"].append(l)
     for n in r["notes"]:
         if n not in rep.notes:
             rep.notes.append(n)
